@@ -1,15 +1,185 @@
-(* Proofs/ModFuncsProofs.v — lemmas for C16 (argument decoding, ranges, streaming, cache). *)
+(* Proofs/ModFuncsProofs.v — C16: argument decoding, ranges over direct and fragmented memory, streaming digests,
+   the hash cache. *)
 From Coq Require Import QArith.
 From Boreal Require Import Base.Prelude Spec.MathSpec Spec.Digest Spec.Strtol Spec.RangeSpec
   Model.ModFuncs Model.HashMod Model.MathMod Model.StringMod Model.ModFuncsCase.
 Open Scope N_scope.
 
+Definition i64max : Z := 9223372036854775807.
+
+(* ------------------------------------------------------------------ arguments *)
 (* i64 arguments never overflow usize: the checked_add of get_args / offset_length_to_start_end cannot fail *)
 Lemma start_end_total : forall o n,
-  (0 <= o <= 9223372036854775807)%Z -> (0 <= n <= 9223372036854775807)%Z ->
+  (0 <= o <= i64max)%Z -> (0 <= n <= i64max)%Z ->
   start_end o n = Some (Z.to_N o, Z.to_N o + Z.to_N n).
 Proof.
-  intros o n Ho Hn. unfold start_end, to_usize, checked_add, umax.
+  intros o n Ho Hn. unfold i64max in *. unfold start_end, to_usize, checked_add, umax.
   destruct (o <? 0)%Z eqn:E1; [lia|]. destruct (n <? 0)%Z eqn:E2; [lia|].
   destruct (Z.to_N o + Z.to_N n <=? 18446744073709551615) eqn:E3; [reflexivity|lia].
 Qed.
+
+Lemma start_end_neg : forall o n, (o < 0)%Z \/ (n < 0)%Z -> start_end o n = None.
+Proof.
+  intros o n H. unfold start_end, to_usize.
+  destruct (o <? 0)%Z eqn:E1; [reflexivity|]. destruct (n <? 0)%Z eqn:E2; [reflexivity|lia].
+Qed.
+
+(* ------------------------------------------------------------------ lists *)
+Lemma nlen_length : forall {A} (l : list A), N.to_nat (nlen l) = length l.
+Proof. intros. unfold nlen. lia. Qed.
+
+Lemma firstn_same_min : forall {A} (x : list A) k1 k2,
+  Nat.min k1 (length x) = Nat.min k2 (length x) -> firstn k1 x = firstn k2 x.
+Proof.
+  intros A x; induction x as [|a x IH]; intros k1 k2 H.
+  - now rewrite !firstn_nil.
+  - destruct k1, k2; cbn [firstn length] in *; try reflexivity; try lia.
+    f_equal. apply IH. lia.
+Qed.
+
+Lemma nlen_app : forall {A} (a b : list A), nlen (a ++ b) = nlen a + nlen b.
+Proof. intros. unfold nlen. rewrite app_length. lia. Qed.
+
+Lemma nlen_skipn : forall {A} k (l : list A), nlen (skipn k l) = nlen l - N.of_nat k.
+Proof. intros. unfold nlen. rewrite skipn_length. lia. Qed.
+
+Lemma nlen_firstn : forall {A} k (l : list A), nlen (firstn k l) = N.min (N.of_nat k) (nlen l).
+Proof. intros. unfold nlen. rewrite firstn_length. lia. Qed.
+
+(* ------------------------------------------------------------------ direct memory: the clipped range *)
+Lemma on_range_direct : forall S (cb : S -> list N -> S) fixed l start end_ s,
+  start <= end_ ->
+  on_range_gen cb fixed (Direct l) start end_ s =
+    if nlen l <=? start then OrNone
+    else OrOk (cb s (firstn (N.to_nat (N.min (end_ - start) (nlen l))) (skipn (N.to_nat start) l))).
+Proof.
+  intros S cb fixed l start end_ s Hle. unfold on_range_gen.
+  destruct (end_ <? start) eqn:E; [lia|].
+  destruct (nlen l <=? start) eqn:E2; [reflexivity|].
+  unfold slice.
+  destruct ((start <=? N.min (nlen l) end_) && (N.min (nlen l) end_ <=? nlen l)) eqn:E3; [|lia].
+  do 2 f_equal. apply firstn_same_min. rewrite skipn_length. unfold nlen in *. lia.
+Qed.
+
+Lemma from_mem_direct : forall d fixed l o n,
+  (o <= i64max)%Z -> (n <= i64max)%Z ->
+  match start_end o n with
+  | Some (s, e) => from_mem_gen fixed d (Direct l) s e
+  | None => RUndef
+  end
+  = match clip_direct l o n with Some bytes => from_bytes d bytes | None => RUndef end.
+Proof.
+  intros d fixed l o n Ho Hn. unfold clip_direct.
+  destruct (o <? 0)%Z eqn:E1; [rewrite start_end_neg by lia; reflexivity|].
+  destruct (n <? 0)%Z eqn:E2; [rewrite start_end_neg by lia; reflexivity|].
+  rewrite start_end_total by (unfold i64max in *; lia).
+  unfold from_mem_gen. rewrite on_range_direct by lia.
+  cbn [orb].
+  destruct (Z.of_N (nlen l) <=? o)%Z eqn:E3.
+  - destruct (nlen l <=? Z.to_N o) eqn:E4; [reflexivity|lia].
+  - destruct (nlen l <=? Z.to_N o) eqn:E4; [lia|].
+    unfold from_bytes. do 3 f_equal.
+    + f_equal. lia.
+    + f_equal. lia.
+Qed.
+
+(* C16_hash_range *)
+Lemma hash_range : forall d mem o n,
+  (o <= i64max)%Z -> (n <= i64max)%Z ->
+  hash_call d (Direct mem) [AInt o; AInt n] =
+    if (o <? 0)%Z || (n <? 0)%Z || (Z.of_N (nlen mem) <=? o)%Z then RUndef
+    else from_bytes d (firstn (N.to_nat (N.min (Z.to_N n) (nlen mem))) (skipn (Z.to_nat o) mem)).
+Proof.
+  intros d mem o n Ho Hn. unfold hash_call, get_args.
+  pose proof (from_mem_direct d true mem o n Ho Hn) as H. unfold clip_direct in H.
+  destruct ((o <? 0)%Z || (n <? 0)%Z || (Z.of_N (nlen mem) <=? o)%Z);
+    destruct (start_end o n) as [[s e]|]; exact H.
+Qed.
+
+(* C16_hash_literal_same: a range call equals the call on the literal made of the clipped bytes *)
+Lemma hash_literal_same : forall d mem m' o n bytes,
+  (o <= i64max)%Z -> (n <= i64max)%Z ->
+  clip_direct mem o n = Some bytes ->
+  hash_call d (Direct mem) [AInt o; AInt n] = hash_call d m' [AStr bytes].
+Proof.
+  intros d mem m' o n bytes Ho Hn Hc. rewrite hash_range by assumption.
+  unfold clip_direct in Hc.
+  destruct ((o <? 0)%Z || (n <? 0)%Z || (Z.of_N (nlen mem) <=? o)%Z); [discriminate|].
+  injection Hc as <-. reflexivity.
+Qed.
+
+(* the five instances are streaming digests *)
+Definition streaming (d : digest) : Prop :=
+  forall st a b, d_update d (d_update d st a) b = d_update d st (a ++ b).
+
+Lemma bytes_digest_streaming : forall f, streaming (bytes_digest f).
+Proof. intros f st a b. cbn. now rewrite app_assoc. Qed.
+Lemma checksum_streaming : streaming checksum_d.
+Proof. intros st a b. cbn. now rewrite fold_left_app. Qed.
+Lemma crc_streaming : streaming crc_d.
+Proof. intros st a b. cbn. now rewrite fold_left_app. Qed.
+
+(* ------------------------------------------------------------------ checksum32 *)
+Lemma checksum_fold : forall l acc,
+  fold_left (fun a b => (a + b) mod 4294967296) l acc mod 4294967296 = (acc + sum_bytes l) mod 4294967296.
+Proof.
+  unfold sum_bytes. induction l as [|b l IH]; intros acc; cbn [fold_left fold_right].
+  - f_equal. lia.
+  - rewrite IH. rewrite N.add_mod_idemp_l by lia. f_equal. lia.
+Qed.
+
+Lemma checksum_fold_lt : forall l acc, acc < 4294967296 ->
+  fold_left (fun a b => (a + b) mod 4294967296) l acc < 4294967296.
+Proof.
+  induction l as [|b l IH]; intros acc H; cbn [fold_left]; [assumption|].
+  apply IH. apply N.mod_lt. lia.
+Qed.
+
+Lemma checksum32_correct : forall l, from_bytes checksum_d l = RInt (Z.of_N (checksum32_ref l)).
+Proof.
+  intros l. unfold from_bytes, checksum32_ref. cbn. do 2 f_equal.
+  pose proof (checksum_fold l 0) as H. rewrite N.add_0_l in H. rewrite <- H.
+  symmetry. apply N.mod_small. apply checksum_fold_lt. lia.
+Qed.
+
+(* ------------------------------------------------------------------ cache *)
+Fixpoint run_cached (d : digest) (m : memory) (c : cmap) (calls : list (list arg)) : list mres :=
+  match calls with
+  | [] => []
+  | a :: r => let (c', v) := hash_call_cached d m c a in v :: run_cached d m c' r
+  end.
+
+Definition cache_ok (d : digest) (m : memory) (c : cmap) : Prop :=
+  forall k v, In (k, v) c -> v = from_mem d m (fst k) (snd k).
+
+Lemma cget_in : forall k c v, cget k c = Some v -> exists k', In (k', v) c /\ fst k' = fst k /\ snd k' = snd k.
+Proof.
+  intros k c v H. unfold cget in H.
+  destruct (find _ c) as [[k' v']|] eqn:F; [|discriminate].
+  injection H as <-. apply find_some in F as [Hin Hk]. cbn in Hk.
+  exists k'. repeat split; [assumption| |]; lia.
+Qed.
+
+Lemma cached_step : forall d m c args,
+  cache_ok d m c ->
+  let (c', v) := hash_call_cached d m c args in cache_ok d m c' /\ v = hash_call d m args.
+Proof.
+  intros d m c args Hc. unfold hash_call_cached, hash_call.
+  destruct (get_args args) as [[s|o e]|]; try (split; [assumption|reflexivity]).
+  destruct (cget (o, e) c) as [v|] eqn:G.
+  - split; [assumption|]. apply cget_in in G as (k' & Hin & H1 & H2). apply Hc in Hin.
+    cbn in H1, H2. now rewrite H1, H2 in Hin.
+  - destruct (is_value (from_mem d m o e)); (split; [|reflexivity]); [|assumption].
+    intros k v [E|Hin]; [|now apply Hc]. now injection E as <- <-.
+Qed.
+
+Lemma run_cached_inv : forall d m calls c, cache_ok d m c -> run_cached d m c calls = map (hash_call d m) calls.
+Proof.
+  intros d m calls; induction calls as [|a r IH]; intros c Hc; [reflexivity|].
+  cbn [run_cached map]. pose proof (cached_step d m c a Hc) as H.
+  destruct (hash_call_cached d m c a) as [c' v]. destruct H as [Hc' ->]. f_equal. now apply IH.
+Qed.
+
+(* C16_cache_consistent *)
+Lemma cache_consistent : forall d m calls, run_cached d m [] calls = map (hash_call d m) calls.
+Proof. intros. apply run_cached_inv. intros k v []. Qed.
